@@ -111,7 +111,7 @@ pub fn evaluate_pair(case: &PairCase, run: &PairRun, focus: Focus) -> Outcome {
     let reset_max = [case.ccfg.reset_max.unwrap_or(50), case.scfg.reset_max.unwrap_or(50)];
     let c2s_shutdown = run.wire.c2s.borrow().shutdown_called;
     check_c19(
-        &C19Ctx { tap: &tap, events: &run.events, stats: &run.stats, settled, client_handles_gone: settled && case.drop_send_request_at_end, c2s_shutdown, reset_max, orphans: &run.orphans },
+        &C19Ctx { tap: &tap, events: &run.events, stats: &run.stats, settled, client_handles_gone: settled && case.drop_send_request_at_end, c2s_shutdown, reset_max, orphans: &run.orphans, orphan_flags: &run.orphan_flags },
         &mut out,
     );
     check_queued_requests_sent(&tap, &av, &run.events, run.end == RunEnd::Quiescent && run.panic.is_none() && case.fault.is_none(), &mut out);
